@@ -170,7 +170,7 @@ def planeroute(run, fx):
             if e['k'] == 'BinaryOperator' and e['op'] == '=':
                 lhs = f.strip_all_casts(e['c'][0])
                 if lhs['k'] == 'ArraySubscriptExpr':
-                    inner = f.strip_all_casts(lhs['c'][0])
+                    inner = f.deref(lhs['c'][0])
                     if inner['k'] == 'ArraySubscriptExpr' and pv[0] in vids_in(inner['c'][0]):
                         stores.append(e)
         okstore = bool(stores) and all(any(x[:3] == (cpname, '<', ps[3]['n']) for x in dom.facts_at(f, s['i'])) for s in stores)
